@@ -112,7 +112,7 @@ def run(res, tier="quick", seed=0, widen=False):
     drv = Driver()
     float_model_stream(res, random.Random(seed * 17 + 1010 + (1 if widen else 0)), tier)
     res.rule = ("streams 1-7 of the module docstring: grouped plain EMA on all code sequences of length <= 5 over {-1,0,1} plus seeded longer ones (exact regime, "
-                "alpha in {1/2,1/4,3/4,1}, dyadic values, nulls, masks, float64/float32/int64/int32); grouped timed EMA with whole-halflife gaps (pre-1970, s/ms/us/ns); "
+                "alpha in {1/2,1/4,3/4,1}, dyadic values, nulls, masks, float64/float32/int64/int32); grouped timed EMA with whole-halflife gaps (starting at, shortly before and up to 4e9 halflives on either side of the epoch, s/ms/us/ns); "
                 "ungrouped vs model; grouped(single group) vs ungrouped; halflife vs alpha for real halflives; GroupBy.ema both layouts; alpha=1 and 1200-row invalid runs; the real grouped kernel bit for bit against the primitive-float model Model/EmaFloat.v (magnitudes 5e-324..1e308, infinities, NaN, masks, null keys); "
                 "non-trivial = >= 2 groups or an invalid row; distinct = canonical case")
     viol = res.violations
@@ -167,7 +167,9 @@ def run(res, tier="quick", seed=0, widen=False):
         L = rng.randint(1, 10)
         codes = [rng.choice([0, 0, 1, -1]) for _ in range(L)]
         vals = [rng.choice(VALS) for _ in range(L)]
-        t0 = rng.choice([0, 5, -20, -3, 1_600_000_000])
+        # starting instants incl. the epoch itself, shortly before it, and thousands to billions of halflives away from it on
+        # either side (a decay measured from the epoch instead of from the group's previous row overflows only out there)
+        t0 = rng.choice([0, 5, -20, -3, 1_600_000_000, -2000, -1_000_000_000, 4_000_000_000])
         t, steps = t0, []
         for _ in range(L):
             t += rng.choice([0, 1, 1, 2, 3, 7])
